@@ -71,6 +71,18 @@ def case_system(case):
         f, bu = fb
         results.append(("get_base_units", x * f if not isinstance(f, float) else float(x) * f, dict(bu._units)))
     old = ureg.default_system
+    if s and s != old:
+        # right after the question about an explicitly named system, the default system still answers for itself
+        repl0 = system_model(R, old) if old else {}
+        allowed0 = set(repl0.values()) | {b for b in R.units if R.units[b].is_base and b not in repl0}
+        for tag, fn in (("get_base_units", lambda: ureg.get_base_units(u)[1]), ("to_base_units", lambda: ureg.Quantity(x, u).to_base_units())):
+            s0, r0 = attempt(fn)
+            if s0 == "err":
+                raise Violation(f"{tag}_raised:{exc_class(r0)}", f"{tag}({u!r}) under the default system raised {r0!r}")
+            extra0 = {n for n in r0._units if n not in allowed0}
+            if extra0:
+                raise Violation(f"base_units_outside_system:{tag}:default_after_explicit",
+                                f"{tag}({u!r}) under the default system {old!r}, asked right after get_base_units({u!r}, system={s!r}), uses {sorted(extra0)}")
     try:
         ureg.default_system = s
         q = ureg.Quantity(x, u)
@@ -337,13 +349,17 @@ def case_groups(case, col=None):
         if col is not None:
             col.case(("gr", str(case["ops"])), True, sample={"ops": case["ops"]}, cls="group_history")
 
-        def verify(where):
-            for g in own:
+        def verify(where, view=None):
+            # view: which groups / systems are looked at after this step, in which order (None = all): a reader that always looks at
+            # everything refreshes every memo after every edit and can never see one that was left stale
+            for g in (own if view is None else [v for v in view if v in own]):
                 want = closure(own, using, g)
                 got = set(ureg.get_group(g, False).members)
                 if got != want:
                     raise Violation("group_members_differ_from_closure", f"{where}: {g}.members = {sorted(got)}, declared closure {sorted(want)}")
             for s, gs in sysuse.items():
+                if view is not None and s not in view:
+                    continue
                 want = set()
                 for g in gs:
                     want |= closure(own, using, g)
@@ -355,15 +371,17 @@ def case_groups(case, col=None):
                     wantc = {m for m in want if G_DIM[m] == G_DIM[probe]}
                     if gotc != wantc:
                         raise Violation("compatible_units_in_system_differ", f"{where}: get_compatible_units({probe},{s}) = {sorted(gotc)}, expected {sorted(wantc)}")
-            for g in own:
+            for g in (own if view is None else [v for v in view if v in own]):
                 gotc = {next(iter(x._units)) for x in ureg.get_compatible_units("xm", g)}
                 wantc = {m for m in closure(own, using, g) if G_DIM[m] == "L"}
                 if gotc != wantc:
                     raise Violation("compatible_units_in_group_differ", f"{where}: get_compatible_units(xm,{g}) = {sorted(gotc)}, expected {sorted(wantc)}")
 
-        verify("after loading")
+        views = list(case.get("views") or [])
+        verify("after loading", views[0] if views else None)
         done = []
-        for op in case["ops"]:
+        for i, op in enumerate(case["ops"]):
+            view = views[(i + 1) % len(views)] if views else None
             kind = op[0]
             done.append(op)
             where = f"after {done}"
@@ -413,7 +431,8 @@ def case_groups(case, col=None):
                     continue
                 ureg.get_system(s_, False).remove_groups(g)
                 sysuse[s_].discard(g)
-            verify(where)
+            verify(where, view)
+        verify(f"after {done} (everything)")
     finally:
         logging.disable(logging.NOTSET)
 
@@ -428,7 +447,11 @@ def run_groups(task, tier, seed, col):
     # a shortcut edge next to a longer path, then the longer path is cut: membership must survive through the shortcut
     shortcut = st.sampled_from([[("add_groups", "g3", "g1"), ("remove_groups", "g2", "g1")], [("add_groups", "g3", "g1"), ("remove_groups", "g3", "g2")],
                                 [("add_groups", "g4", "g2"), ("add_groups", "g4", "g1"), ("remove_groups", "g2", "g1")]])
-    strat = st.lists(st.one_of(op.map(lambda o: [o]), op.map(lambda o: [o]), shortcut), min_size=1, max_size=10).map(lambda chunks: {"ops": [list(o) for ch in chunks for o in ch]})
+    view = st.one_of(st.none(), st.lists(st.sampled_from(gs + ["s1", "s2"]), min_size=1, max_size=2, unique=True), st.sampled_from([["g4"], ["g3"], ["s1"], ["s2"]]))
+    # the same inner group edited twice in a row while only an outer group / a system is looked at in between
+    twice = st.tuples(st.sampled_from(["g1", "g2"]), st.sampled_from(us), st.sampled_from(us)).map(lambda t: [("add_units", t[0], t[1]), ("add_units", t[0], t[2]), ("remove_units", t[0], t[1])])
+    strat = st.tuples(st.lists(st.one_of(op.map(lambda o: [o]), op.map(lambda o: [o]), shortcut, twice), min_size=1, max_size=10), st.lists(view, min_size=1, max_size=6)).map(
+        lambda t: {"ops": [list(o) for ch in t[0] for o in ch], "views": t[1]})
     hyp_search(col, strat, lambda c: case_groups(c, col), max_examples=120 if tier == "quick" else 3000, seed=seed * 239 + task["shard"], shrink_budget_s=60)
 
 
